@@ -209,7 +209,7 @@ pub fn c12_check(h: &Hist) -> Option<(String, String)> {
 fn history_len(ctx: &Ctx, r: &mut Rng) -> usize { if ctx.thorough { r.range(1, 120) } else { r.range(1, 30) } }
 
 pub fn c12(ctx: &mut Ctx) {
-    let n: u64 = if ctx.thorough { 600_000 } else { 50_000 };
+    let n: u64 = if ctx.thorough { 3_000_000 } else { 200_000 };
     for i in 0..n {
         if !ctx.mine(i) { continue; }
         let mut r = ctx.rng(i);
@@ -324,7 +324,7 @@ fn touches_doctype(op: &Op, pool: &Pool) -> bool {
 fn ret_idx(r: &Ret) -> Option<usize> { match r { Ret::Node(x) => Some(x.idx), Ret::OptNode(Some(x)) => Some(x.idx), _ => None } }
 
 pub fn c13(ctx: &mut Ctx) {
-    let n: u64 = if ctx.thorough { 600_000 } else { 50_000 };
+    let n: u64 = if ctx.thorough { 3_000_000 } else { 200_000 };
     for i in 0..n {
         if !ctx.mine(i) { continue; }
         let mut r = ctx.rng(i);
@@ -472,7 +472,7 @@ pub fn order_invariant(doc: &XmlDocument) -> Option<(&'static str, String)> {
 const REQUERY: &[&str] = &["//*", "//node()", "//@*", "//text()", "//comment()", "//processing-instruction()", "//*[1]", "//*[last()]", "//*/following::*", "//*/preceding::*", "(//*)[2]", "(//node())[last()]", "//*[2]/following-sibling::node()", "//*/preceding-sibling::node()[1]", "//*/ancestor::*", "//*[@*]", "//a | //b | //c", "//text() | //comment() | //*", "(//a | //b)[1]", "(//comment() | //text())[last()]", "count(//node())", "count(//@*)", "//*/*[2]", "//*[position() = 2]/node()", "/*/node()[3]", "//*/following-sibling::*[1]", "//*/preceding::node()[1]", "//*[last()]/preceding-sibling::node()", "string(/)", "//item | //x1 | //n | //k", "(//@* | //*)[3]", "//*/@*[1]/..", "//*[not(*)]", "/node()", "/*/*/following::node()[2]"];
 
 pub fn c14(ctx: &mut Ctx) {
-    let n: u64 = if ctx.thorough { 300_000 } else { 30_000 };
+    let n: u64 = if ctx.thorough { 1_500_000 } else { 100_000 };
     for i in 0..n {
         if !ctx.mine(i) { continue; }
         let mut r = ctx.rng(i);
@@ -680,7 +680,7 @@ fn c15_directed(ctx: &mut Ctx, base: u64) {
 
 pub fn c15(ctx: &mut Ctx) {
     c15_directed(ctx, 20_000_000);
-    let n: u64 = if ctx.thorough { 600_000 } else { 50_000 };
+    let n: u64 = if ctx.thorough { 2_000_000 } else { 150_000 };
     for i in 0..n {
         if !ctx.mine(i) { continue; }
         let mut r = ctx.rng(i);
@@ -819,7 +819,7 @@ pub fn c16(ctx: &mut Ctx) {
         }
     } }
     // (b) random sequences of calls on one node
-    let nseq: u64 = if ctx.thorough { 1_000_000 } else { 60_000 };
+    let nseq: u64 = if ctx.thorough { 3_000_000 } else { 200_000 };
     for i in 0..nseq {
         let id = 1_000_000 + i;
         if !ctx.mine(id) { continue; }
